@@ -420,3 +420,30 @@ def ref_array_or_none(dtype, shape):
             return ACC(None)
         return inner(v)
     return f
+
+
+def ref_validated_cast_tuple(casts, pred):
+    """ValidatedTuple(C*, C*, fvalidate=pred): members are cast first, the predicate judges the
+    CONVERTED tuple (docs: "the tuple is validated ... after the elements have been validated")."""
+    members = [ref_cast(t, (ValueError, TypeError)) for t in casts]
+
+    def f(v):
+        if isinstance(v, list):
+            # BaseTuple.validate (the Python path ValidatedTuple uses) deliberately takes a
+            # list as the tuple of its items; the stored value is a tuple in the domain
+            v = tuple(v)
+        if not isinstance(v, tuple) or len(v) != len(members):
+            return REJ
+        rs = [m(x) for m, x in zip(members, v)]
+        passes = _union_passes(rs)
+        if not all(r.accepts for r in rs):
+            return R([], True, passes)
+        conv = tuple(r.accepts[0] for r in rs)
+        try:
+            ok = bool(pred(conv))
+        except Exception:
+            ok = False
+        if not ok:
+            return R([], True, passes)
+        return R([conv], bool(passes), passes)
+    return f
